@@ -96,29 +96,37 @@ theorem recv_pending6 (tl : Bool) (now : Nat) (draws : List Nat) (ty : Option Na
   simp only [hta, htok]
   simp
 
+/-- the shape with a flag: `(t, true)` means "online" (this is how the composed theorem knows that the
+connector is still online at the end) -/
+def ShF (t : Option Nat × Bool) (o : Online) (c : Conn) : Prop :=
+  Sh t.1 o c ∧ (t.2 = true → ∃ s, c = ⟨.online t.1 o, s⟩)
+
 set_option maxRecDepth 4000 in
 def gface6 (tl : Bool) : GIface (proto6 tl) core Conn6.cfg Timed where
-  Tok := Option Nat
-  Sh := Sh
-  pkt := pktH
-  peer := fun tx ty => tx = ty ∧ (tl = true → ty = none)
+  Tok := Option Nat × Bool
+  Sh := ShF
+  pkt := fun t => pktH t.1
+  peer := fun tx ty => tx.1 = ty.1 ∧ (tl = true → ty.1 = none)
   core_sh := by
     intro t o c h
-    rcases h with ⟨s, rfl⟩ | ⟨rfl, s, rfl⟩ <;> rfl
+    rcases h.1 with ⟨s, rfl⟩ | ⟨rfl, s, rfl⟩ <;> rfl
   view_pkt := by intro t d; cases d <;> rfl
   online_sh := by
     intro t o c h
-    rcases h with ⟨s, rfl⟩ | ⟨rfl, s, rfl⟩
+    rcases h.1 with ⟨s, rfl⟩ | ⟨rfl, s, rfl⟩
     · exact Or.inl rfl
     · exact Or.inr ⟨rfl, rfl⟩
   tickPhase := by
     intro now0 t o c h hinv hack hS
+    obtain ⟨t, flg⟩ := t
+    obtain ⟨h, hflg⟩ := h
+    dsimp only at h hflg
     rcases h with ⟨s, rfl⟩ | ⟨rfl, s, rfl⟩
     · obtain ⟨c1, o2, s2, d1, d2, e1, e2, hps, hne⟩ :=
         (iface6 tl).tickPhase Conn6.cfg_ok (now0 := now0) (t := t) (s := s) hinv hack hS.1 hS.2
       have hmap : ∀ ds : List Dg, (ds.map conv).map (pktH t) = ds.map ((iface6 tl).pkt t) := by
         intro ds; rw [List.map_map]; exact List.map_congr_left (fun d _ => (conv_pkt tl t d).symm)
-      refine ⟨c1, _, o2, d1.map conv, d2.map conv, ?_, ?_, Or.inl ⟨s2, rfl⟩, ?_, by simpa using hne⟩
+      refine ⟨c1, _, o2, d1.map conv, d2.map conv, ?_, ?_, ⟨Or.inl ⟨s2, rfl⟩, fun _ => ⟨s2, rfl⟩⟩, ?_, by simpa using hne⟩
       · exact e1.trans (congrArg (fun l => Except.ok ({ conn := c1, sent := l } : Ret Conn Packet)) (hmap d1).symm)
       · exact e2.trans (congrArg (fun l => Except.ok ({ conn := ⟨.online t o2, s2⟩, sent := l } : Ret Conn Packet))
           (hmap d2).symm)
@@ -132,7 +140,7 @@ def gface6 (tl : Bool) : GIface (proto6 tl) core Conn6.cfg Timed where
       generalize T1 + sendUs = T2 at t2 ⊢
       refine ⟨⟨.pending t, Timeout.after T1 sendUs⟩,
         ⟨.pending t, Timeout.after T2 sendUs⟩, .new, [.ctl 2 0], [.ctl 2 0], ?_, ?_,
-        Or.inr ⟨rfl, _, rfl⟩, ?_, by simp⟩
+        ⟨Or.inr ⟨rfl, _, rfl⟩, fun hf => by obtain ⟨_, h'⟩ := hflg hf; cases h'⟩, ?_, by simp⟩
       · exact tick_pending T1 t s t1
       · exact tick_pending T2 t (Timeout.after T1 sendUs) t2
       · have := PhaseSpec.of_flush_kas (Online.new_inv Conn6.cfg) (o := .new) rfl
@@ -143,6 +151,10 @@ def gface6 (tl : Bool) : GIface (proto6 tl) core Conn6.cfg Timed where
         simpa [DgH.fl] using this
   recv_dg := by
     intro now draws tx ty o c d alt h hp hinv hack hseq
+    obtain ⟨tx, fx⟩ := tx
+    obtain ⟨ty, fy⟩ := ty
+    obtain ⟨h, hflg⟩ := h
+    dsimp only at h hflg hp
     obtain ⟨rfl, hty⟩ := hp
     rcases h with ⟨s, rfl⟩ | ⟨rfl, s, rfl⟩
     · -- online receiver
@@ -151,10 +163,10 @@ def gface6 (tl : Bool) : GIface (proto6 tl) core Conn6.cfg Timed where
         obtain ⟨o2, s2, r, fl, h1, h2, h3, h4, h5⟩ :=
           (iface6 tl).recv_dg' Conn6.cfg_ok (now := now) (draws := draws) (tx := tx) (ty := tx) (s := s)
             (.chunk f) alt ⟨rfl, hty⟩ hinv hack hseq
-        exact ⟨o2, r, fl, h1, Or.inl ⟨s2, h2⟩, h3, h4, h5⟩
+        exact ⟨o2, r, fl, h1, ⟨Or.inl ⟨s2, h2⟩, fun _ => ⟨s2, h2⟩⟩, h3, h4, h5⟩
       | ctl k a =>
         obtain ⟨hfa, _⟩ := Online.feedAck_spec hinv hack
-        refine ⟨_, ⟨⟨.online tx (o.ackChunks a), s⟩, [], [], false⟩, [], ?_, Or.inl ⟨s, rfl⟩,
+        refine ⟨_, ⟨⟨.online tx (o.ackChunks a), s⟩, [], [], false⟩, [], ?_, ⟨Or.inl ⟨s, rfl⟩, fun _ => ⟨s, rfl⟩⟩,
           ⟨now, s, s, _, [], [], hfa, receive_nil now _ s⟩, rfl, fun _ => rfl⟩
         show P6.recv tl now draws ⟨.online tx o, s⟩ (.control a tx (kindOf k)) alt = _
         unfold P6.recv
@@ -170,7 +182,7 @@ def gface6 (tl : Bool) : GIface (proto6 tl) core Conn6.cfg Timed where
       | chunk f =>
         obtain ⟨o2, s2, fl, evs, hrc, _, hval, _⟩ :=
           Online.receive_spec Conn6.cfg_ok (Online.new_inv Conn6.cfg) now s f.requestResend f.chunks hseq
-        refine ⟨o2, ⟨⟨.online tx o2, s2⟩, fl.map (ofFlushed tx), evs, false⟩, fl, ?_, Or.inl ⟨s2, rfl⟩,
+        refine ⟨o2, ⟨⟨.online tx o2, s2⟩, fl.map (ofFlushed tx), evs, false⟩, fl, ?_, ⟨Or.inl ⟨s2, rfl⟩, fun _ => ⟨s2, rfl⟩⟩,
           ⟨now, s, s2, _, fl, evs, hfa, hrc⟩, rfl, fun _ => receive_fl_nil rfl hrc⟩
         show P6.recv tl now draws ⟨.pending tx, s⟩ (ofFlushed tx f) alt = _
         unfold P6.recv
@@ -179,7 +191,7 @@ def gface6 (tl : Bool) : GIface (proto6 tl) core Conn6.cfg Timed where
           rfl (by cases tl <;> simp_all [ofFlushed, strip, hasToken])]
         cases tl <;> simp [ofFlushed, strip, feedBody, hrc, (Tw.Conn6.emit_flushed tx hval).1] <;> rfl
       | ctl k a =>
-        refine ⟨.new, ⟨⟨.pending tx, s⟩, [], [], false⟩, [], ?_, Or.inr ⟨rfl, s, rfl⟩,
+        refine ⟨.new, ⟨⟨.pending tx, s⟩, [], [], false⟩, [], ?_, ⟨Or.inr ⟨rfl, s, rfl⟩, fun hf => by obtain ⟨_, h'⟩ := hflg hf; cases h'⟩,
           ⟨now, s, s, _, [], [], hfa, receive_nil now _ s⟩, rfl, fun _ => rfl⟩
         show P6.recv tl now draws ⟨.pending tx, s⟩ (.control a tx (kindOf k)) alt = _
         unfold P6.recv
@@ -281,7 +293,7 @@ theorem ready_round6 (tl : Bool) (draws : List Nat) (alt : (proto6 tl).Alt) (nt 
     (hb : (∃ sb, w.b.conn = ⟨.unconnected, sb⟩) ∨
       (∃ tb sb, w.b.conn = ⟨.pending tb, sb⟩ ∧ tb.isSome = !tl)) :
     ∃ (s' : FairState (proto6 tl)) (tb : Option Nat) (La : List (DgH × Nat)),
-      fairRoundT draws alt (FairState.start w) = some s' ∧ OnlineFH (gface6 tl) tb tb s' La ∧
+      fairRoundT draws alt (FairState.start w) = some s' ∧ OnlineFH (gface6 tl) (tb, true) (tb, false) s' La ∧
       Event.ready ∈ s'.w.a.events ∧ ∃ o s, s'.w.a.conn = ⟨.online tb o, s⟩ := by
   obtain ⟨T1, hT1⟩ : ∃ T1, T1 = w.now + resendUs := ⟨_, rfl⟩
   obtain ⟨T2, hT2⟩ : ∃ T2, T2 = T1 + sendUs := ⟨_, rfl⟩
@@ -418,7 +430,7 @@ theorem ready_round6 (tl : Bool) (draws : List Nat) (alt : (proto6 tl).Alt) (nt 
     · simp only [fairRoundT, FairState.start] at hrun1 hrun2 ⊢
       simp only [hrun, hrun1, hrun2]
       rfl
-    · refine ⟨⟨hA3, ⟨hS3, hS2⟩, ⟨.new, Or.inl ⟨_, a2conn⟩⟩, ⟨.new, Or.inr ⟨rfl, _, b2conn⟩⟩,
+    · refine ⟨⟨hA3, ⟨hS3, hS2⟩, ⟨.new, Or.inl ⟨_, a2conn⟩, fun _ => ⟨_, a2conn⟩⟩, ⟨.new, Or.inr ⟨rfl, _, b2conn⟩, fun h => by cases h⟩,
         ⟨rfl, by intro h; simp [tokB, h]⟩, ⟨rfl, by intro h; simp [tokB, h]⟩⟩, rfl, ⟨w1.a.out, ?_, rfl⟩, ?_⟩
       · show a2.out = _
         have : a2.nAbs = w.a.nAbs := by simp [End.nAbs, End.submittedVital, a2sub, a1sub]
@@ -561,7 +573,7 @@ theorem ready_round6 (tl : Bool) (draws : List Nat) (alt : (proto6 tl).Alt) (nt 
     · simp only [fairRoundT, FairState.start] at hrun1 hrun2 ⊢
       simp only [hrun, hrun1, hrun2]
       rfl
-    · refine ⟨⟨hA3, ⟨hS3, hS2⟩, ⟨.new, Or.inl ⟨_, a2conn⟩⟩, ⟨.new, Or.inr ⟨rfl, _, b2conn⟩⟩,
+    · refine ⟨⟨hA3, ⟨hS3, hS2⟩, ⟨.new, Or.inl ⟨_, a2conn⟩, fun _ => ⟨_, a2conn⟩⟩, ⟨.new, Or.inr ⟨rfl, _, b2conn⟩, fun h => by cases h⟩,
         ⟨rfl, htb'⟩, ⟨rfl, htb'⟩⟩, rfl, ⟨w1.a.out, ?_, rfl⟩, ?_⟩
       · show a2.out = _
         have : a2.nAbs = w.a.nAbs := by simp [End.nAbs, End.submittedVital, a2sub, a1sub]
